@@ -164,6 +164,13 @@ theorem C02_coalesce_key (lt rt : Name) (L R : Table) (hq : QualOK lt rt L.cols 
   simp only [keyItem, coalesce_eval, qtable]
   rw [hq.left l r k hkL hl, hq.right l r k hkR hl]
 
+/-- In a block that already has joins, the left operand of a further name-join's ON clause is the left-most joined table
+    that has the key (`_handle_join_column_names_only` scans the candidates left to right and stops at the first): for
+    chains of inner / left joins that is the table PySpark's de-duplicated key comes from. -/
+theorem C02_chain_key_leftmost (a : Name) (Ca : List Name) (rest : List (Name × List Name)) (r k : Name) (hk : k ∈ Ca) :
+    keyPairs ((a, Ca) :: rest) r [k] = some [(k, a, r)] := by
+  simp [keyPairs, keyLeftmostFirst, List.find?, hk]
+
 /-! ### chains: a join result re-enters the C01 world -/
 
 /-- Any block with distinct output names — in particular the join blocks above, whose `last_op` is FROM — once frozen by
@@ -361,6 +368,28 @@ theorem C02_cex_joinAfterSemiAnti :
 theorem C02_cex_nameJoinDupKeyName :
     (runImpl wit_nameJoinDupKeyName).flags = ["H_nameJoinDupKeyName"] ∧ (runSpec wit_nameJoinDupKeyName).isSome = true ∧
     (runImpl wit_nameJoinDupKeyName).result ≠ runSpec wit_nameJoinDupKeyName := by decide
+
+/-- `createDataFrame([[2, 20]], ['Cust_ID', 'Val']).join(createDataFrame([[2, 7]], ['cust_id', 'val']), 'cust_id')` -/
+def wit_displayNameFolded : List FrameDef := [
+  .baseSpelled { cols := ["cust_id", "val"], rows := [[(.int 2), (.int 20)]] } ["Cust_ID", "Val"],
+  .base { cols := ["cust_id", "val"], rows := [[(.int 2), (.int 7)]] },
+  .join 0 1 (.names ["cust_id"]) "inner"]
+
+/-- H_displayNameFolded — one spelling per case-folded name: the right side's `val` is reported as `Val` -/
+theorem C02_cex_displayNameFolded :
+    (runImpl wit_displayNameFolded).flags = ["H_displayNameFolded"] ∧ (runSpec wit_displayNameFolded).isSome = true ∧
+    (runImpl wit_displayNameFolded).result ≠ runSpec wit_displayNameFolded := by decide
+
+/-- spelling of a name-join's key: with the generated precedence (`joinDisplayOrder`, the left DataFrame first) the key
+    whose spelling differs on the two sides is reported as the left side spells it, as PySpark does -/
+theorem C02_key_spelling : joinDisplayOrder = [.self, .other] ∧
+    ∀ h ∈ ["inner", "left", "outer", "semi", "anti"],
+      ((runImpl [.baseSpelled { cols := ["cust_id", "total"], rows := [[.int 2, .int 20]] } ["Cust_ID", "Total"],
+                 .baseSpelled { cols := ["cust_id", "region"], rows := [[.int 2, .int 7]] } ["cust_id", "Region"],
+                 .join 0 1 (.names ["cust_id"]) h]).result.map (·.cols)) =
+      ((runSpec [.baseSpelled { cols := ["cust_id", "total"], rows := [[.int 2, .int 20]] } ["Cust_ID", "Total"],
+                 .baseSpelled { cols := ["cust_id", "region"], rows := [[.int 2, .int 7]] } ["cust_id", "Region"],
+                 .join 0 1 (.names ["cust_id"]) h]).map (·.cols)) := by decide
 
 /-! ### non-vacuity -/
 
